@@ -137,6 +137,28 @@ theorem setAttr_delete_wf {m : MeshVal α} (h : WF m) (k : AttrKey)
     · exact hk
   · exact h.2.2
 
+theorem clearAttrs_wf {m : MeshVal α} (h : WF m) (hi : m.indices = []) : WF m.clearAttrs := by
+  refine ⟨by simp [clearAttrs], by simp [clearAttrs, hi], ?_⟩
+  have := h.2.2; simpa [clearAttrs] using this
+
+/-- `SetFloatNData` with arrays of the common length keeps WF, provided some array remains or there is no index -/
+theorem setData_wf {m : MeshVal α} (h : WF m) (w : Nat) (new : Attrs α)
+    (hnew : ∀ kd ∈ new, kd.2.length = m.attrLen)
+    (hne : (m.setData w new).attrs ≠ [] ∨ m.indices = []) : WF (m.setData w new) := by
+  apply wf_of_uniform m.attrLen
+  · intro kd hk
+    simp only [setData, List.mem_append, List.mem_filter] at hk
+    rcases hk with ⟨hk, _⟩ | hk
+    · exact h.1 kd hk
+    · exact hnew kd hk
+  · exact h.2.1
+  · intro hnil
+    show m.indices = []
+    rcases hne with hne | hne
+    · exact absurd hnil hne
+    · exact hne
+  · exact h.2.2
+
 theorem modifyAttr_wf {m m' : MeshVal α} (h : WF m) {k : AttrKey} {f : List α → List α}
     (hf : ∀ d, (f d).length = d.length) (hm : m.modifyAttr k f = some m') : WF m' := by
   unfold modifyAttr at hm
